@@ -53,11 +53,18 @@ pub fn generate(g: &mut G, _index: u64) -> Scenario {
         }
         script.push(StreamItem::Item(g.id()));
     }
-    let ends = match shape {
+    let mut ends = match shape {
         0 => g.chance(1, 2),
         1 => false,
         _ => g.chance(2, 3),
     };
+    // a saturated stream: always ready, for ever; the mailbox must still be served and a stop or
+    // the last drop must still terminate the actor
+    let saturated = g.chance(1, 8);
+    if saturated {
+        script.push(StreamItem::Forever(1_000_000));
+        ends = false;
+    }
     let mut spec = ActorSpec {
         entry,
         restart: Restart::NonRestartable,
@@ -69,7 +76,11 @@ pub fn generate(g: &mut G, _index: u64) -> Scenario {
     if entry.builder() && g.chance(1, 3) {
         spec.timeout = Some(g.range(1, 5));
     }
-    let cause = g.pick(&[Cause::None, Cause::None, Cause::Stop, Cause::Halt, Cause::CtxStop, Cause::LastDrop, Cause::TryStop]);
+    let cause = if saturated {
+        g.pick(&[Cause::Stop, Cause::Halt, Cause::CtxStop, Cause::LastDrop, Cause::TryStop])
+    } else {
+        g.pick(&[Cause::None, Cause::None, Cause::Stop, Cause::Halt, Cause::CtxStop, Cause::LastDrop, Cause::TryStop])
+    };
     let kinds: &[HKind] = if cause == Cause::LastDrop { &[HKind::WeakSender, HKind::WeakCaller] } else { &[HKind::Addr, HKind::Sender, HKind::Caller, HKind::WeakSender] };
     let nclients = g.range(1, 3) as usize;
     let mut fam = one_actor(g, spec, nclients, kinds, (1, 2));
@@ -113,9 +124,7 @@ pub fn generate(g: &mut G, _index: u64) -> Scenario {
 
 pub fn check(v: &View) -> Vec<Violation> {
     let mut out = vec![];
-    if v.out.outcome.cap_phase != 0 {
-        return out;
-    }
+    let capped = v.out.outcome.cap_phase != 0;
     for a in v.actors.values() {
         let Some(aidx) = a.aidx else { continue };
         if aidx >= AIDX_SVC_A || v.actors_of(aidx).len() != 1 {
@@ -138,6 +147,9 @@ pub fn check(v: &View) -> Vec<Violation> {
         let faulted = v.fault_injected(a);
         crate::log::probe("c13_items_checked");
         // exactly once, in stream order: the handled items are the yielded items, in order
+        if capped && a.dead.is_none() {
+            // nothing more to judge on an unfinished history beyond "did not terminate" below
+        }
         let hy: Vec<u64> = handled.iter().map(|c| c.id).collect();
         let yy: Vec<u64> = yielded.iter().map(|y| y.1).collect();
         if hy != yy {
@@ -148,7 +160,7 @@ pub fn check(v: &View) -> Vec<Violation> {
         }
         // nothing being handled is ever abandoned (even with a timeout configured)
         for c in v.handler_cbs_of(a) {
-            if c.exit.is_none() && !faulted {
+            if c.exit.is_none() && !faulted && !(capped && a.dead.is_none()) {
                 out.push(violation(P, "handler-abandoned", &sig, format!("actor {aidx}: {:?}/{} entered at seq {} never finished (timeout configured: {:?})", c.cb, c.id, c.enter, spec.timeout)));
             }
         }
@@ -168,7 +180,9 @@ pub fn check(v: &View) -> Vec<Violation> {
             crate::log::probe("c13_last_drop");
         }
         let must_end = !faulted && (stream_end.is_some() || stop.is_some() || t0.is_some() || v.sc.drop_handles);
-        if must_end && v.out.outcome.quiescent_at_end {
+        // (a run that hits the step cap with the actor still alive although it was stopped / let go
+        // thousands of steps ago is the saturated-stream case: the actor never looked at its mailbox)
+        if must_end && (v.out.outcome.quiescent_at_end || capped) {
             if a.dead.is_none() {
                 out.push(violation(P, "did-not-terminate", &sig, format!("actor {aidx}: stream ended {:?} / stop accepted {:?} / last strong handle gone {:?} but the actor never terminated", stream_end, stop, t0)));
             } else if !v.graceful(a) {
@@ -201,7 +215,7 @@ pub fn check(v: &View) -> Vec<Violation> {
         }
     }
     // every operation resolves (stop / drop terminate it even if the stream never ends)
-    if v.out.outcome.hung {
+    if v.out.outcome.hung || v.out.outcome.cap_phase == 1 {
         for o in v.ops.iter().filter(|o| !o.ended()) {
             out.push(violation(P, "operation-never-resolves", crate::props::c02::op_name(o.inner), format!("client {} op {:?} never returned", o.client, o.inner)));
         }
